@@ -436,6 +436,15 @@ class MLists(Model):
           up[self.v("c%d_%d" % (j, c))] = B.ite(B.and_(me, B.eq(lens[j], K(c))), x, st[self.v("c%d_%d" % (j, c))])
       room = B.ult(ln, K(self.cells))
       return [(room, "ok", K(NONE), up), (B.not_(room), "exc:ModelCapacity", None, {})]
+    if op == "replace":          # lst[:] = [...]: one C-level call; args: list, new length, new cells
+      n2, new = args[1], args[2:]
+      up = {}
+      for j in range(self.nlists):
+        me = B.eq(li, K(j + 1))
+        up[self.v("len%d" % j)] = B.ite(me, n2, lens[j])
+        for c in range(self.cells):
+          up[self.v("c%d_%d" % (j, c))] = B.ite(me, B.ite(B.ult(K(c), n2), new[c], K(0)), st[self.v("c%d_%d" % (j, c))])
+      return [(T, "ok", K(NONE), up)]
     if op == "iter_next":
       i = args[1]
       more = B.ult(i, ln)
